@@ -114,7 +114,7 @@ def make_spy(base, ctl):
                 if r and len(r) > 1 and isinstance(r[1], _errors.PathIOError):
                     # the wrapped back end already reported its failure: hand that report on as it is (wrapping it a second
                     # time would hide the original exception, e.g. its errno, from the server)
-                    raise r[1] from None
+                    raise r[1]      # (as it is: its __cause__ - the back end's own exception - stays in place)
                 raise
         return outer
 
@@ -280,11 +280,12 @@ def tree_json(tree):
     return {k: (v if v == DIR else f"{len(v)}B:{v[:24].hex()}") for k, v in sorted(tree.items())}
 
 
-def memory_populate(fs, spec, now=None):
-    """Build nodes from {path: DIR|bytes} into a MemoryPathIO state list."""
+def memory_populate(fs, spec, now=None, reverse=False):
+    """Build nodes from {path: DIR|bytes} into a MemoryPathIO state list (reverse: siblings in descending order of their names,
+    which is the order a listing of MemoryPathIO yields them in)."""
     Node = _pathio.Node
     root = fs[0]
-    for p in sorted(spec):
+    for p in sorted(spec, reverse=reverse):
         parts = [x for x in p.split("/") if x]
         nodes = root.content
         for i, part in enumerate(parts):
